@@ -101,7 +101,7 @@ def run(ctx: Ctx):
     cases = []
     for f in sorted((VERIF / "corpus" / "C17").glob("*.json")):
         cases.append(("corpus:" + f.name, json.loads(f.read_text())["case"]))
-    n = ctx.scale(600, 9000)
+    n = ctx.scale(600, 7000)
     rng = ctx.rng.fork("db")
     pre = {}
     for k in range(n):
